@@ -4,7 +4,8 @@ from pyvc.native import *      # noqa: F401,F403
 CONTEXT_FILE = 'frappy/protocol/interface/tcp.py'
 SOURCES = ['frappy/protocol/interface/__init__.py', 'frappy/protocol/interface/tcp.py',
            'frappy/protocol/interface/handler.py', 'frappy/errors.py']
-GHOSTS = []
+GHOSTS = ['log_taken', 'log_replies', 'log_async']
+INLINE = ['DecodeError.raw_msg']
 ASSUMPTIONS = [
     'A3/A6/A7 as for the other properties',
     'decode_msg (strip / utf-8 decode / split / json.loads) is an assumed codec contract: any triple or any exception',
@@ -14,7 +15,11 @@ HELPREQUEST = 'help'
 
 CLASSES = {
     'TCPRequestHandler': dict(fields={'data': 'bytes', 'running': 'bool'}),
-    'DecodeError': dict(fields={'_raw_msg': 'any'}),
+    'DecodeError': dict(fields={'_raw_msg': 'bytes'}),
+    'RequestHandler': dict(fields={'running': 'bool', 'server': 'Server', 'data': 'any'},
+                           virtual=['receive', 'ingest', 'next_message', 'send_reply']),
+    'Server': dict(fields={'detailed_errors': 'bool', 'dispatcher': 'Dispatcher'}),
+    'Dispatcher': dict(fields={}),
     'Exception': dict(fields={}, bases=[]),
 }
 
@@ -43,8 +48,122 @@ CONTRACTS = [
                   'consumed': "implies(result is not None, b'\\n' in old(self.data) and Consumed(old(self.data), self.data))"},
          raises={'cls': 'issubclass(exc, DecodeError)',
                  'consumed': "b'\\n' in old(self.data) and Consumed(old(self.data), self.data)"}),
+    # ---- the request loop (base class): abstract transport methods by interface contracts with ghost logs
+    #      log_taken: one entry per request line taken out of the buffer; log_replies: reply lines sent
+    #      (lines of action '_' - help text, asynchronous - are logged in log_async)
+    dict(key='iface::RequestHandler.receive', file=None, func=None, signature='self', serves=[], trusted=True, requires=[],
+         ensures={'bytes': 'result is None or is_bytes(result)'},
+         raises={'cls': 'issubclass(exc, ConnectionClose)'}),
+    dict(key='iface::RequestHandler.ingest', file=None, func=None, signature='self, newdata', serves=[], trusted=True,
+         requires=['is_bytes(newdata)'], modifies=['data'], ensures={}, raises='never'),
+    dict(key='iface::RequestHandler.next_message', file=None, func=None, signature='self', serves=[], trusted=True,
+         requires=[], modifies=['data'], ghost_modifies=['log_taken'],
+         ensures={'none': 'implies(result is None, log_taken == old(log_taken))',
+                  'msg': 'implies(result is not None, is_tuple(result) and len(result) == 3 and is_str(result[0])'
+                         ' and log_taken == old(log_taken) + [result])'},
+         raises_type='DecodeError',
+         raises={'raw': 'is_bytes(excval._raw_msg)',
+                 'taken': 'len(log_taken) == len(old(log_taken)) + 1'}),
+    dict(key='iface::RequestHandler.send_reply', file=None, func=None, signature='self, data', serves=[], trusted=True,
+         requires=["(is_tuple(data) or is_list(data)) and len(data) == 3 and is_str(data[0])"],
+         modifies=['running'], ghost_modifies=['log_replies', 'log_async'],
+         ensures={'inv': 'inv(self)',
+                  'reply': "implies(not IsAsync(data), log_replies == old(log_replies) + [data] and log_async == old(log_async))",
+                  'async': "implies(IsAsync(data), log_async == old(log_async) + [data] and log_replies == old(log_replies))"},
+         raises='never'),
+    dict(key='Dispatcher.handle_request', file=None, func=None, signature='self, conn, msg', serves=[], trusted=True,
+         requires=['is_tuple(msg) and len(msg) == 3'], ghost_modifies=['log_async'],
+         ensures={'triple': "(is_tuple(result) or is_list(result)) and len(result) == 3 and is_str(result[0]) and not IsAsync(result)"
+                            " and not result[0].startswith('error_')"},
+         raises={}),
+    dict(key='formatException', file=None, func=None, packed_args=True, serves=[], trusted=True, requires=[],
+         ensures={'text': 'is_str(result)'}, raises='never', result_kind='str'),
+    dict(key='formatExtendedStack', file=None, func=None, packed_args=True, serves=[], trusted=True, requires=[],
+         ensures={'text': 'is_str(result)'}, raises='never', result_kind='str'),
+    dict(key='formatExtendedTraceback', file=None, func=None, packed_args=True, serves=[], trusted=True, requires=[],
+         ensures={'text': 'is_str(result)'}, raises='never', result_kind='str'),
+    dict(key='sys.exc_info', file=None, func=None, signature='', serves=[], trusted=True, requires=[],
+         ensures={}, raises='never'),
+    dict(key='RequestHandler.handle_help', file='frappy/protocol/interface/handler.py', func='RequestHandler.handle_help',
+         serves=['C07'], self_type='RequestHandler', requires=['inv(self)'], modifies=['running'],
+         ghost_modifies=['log_async'],
+         ensures={'inv': 'inv(self)', 'no_reply': 'log_replies == old(log_replies)'}, raises='never'),
+    dict(key='RequestHandler.handle', file='frappy/protocol/interface/handler.py', func='RequestHandler.handle',
+         serves=['C07'], self_type='RequestHandler',
+         requires=['inv(self)', 'len(log_replies) == len(log_taken)'],
+         modifies=['data', 'running'], ghost_modifies=['log_taken', 'log_replies', 'log_async'],
+         ensures={'one_reply_per_line': 'len(log_replies) == len(log_taken)'}, raises='never',
+         # clauses evaluated only by the bounded stand-in (real dispatcher, real codec behind a scripted socket)
+         bounded_ensures={'wellformed': 'WireWellFormed(wire_out)',
+                          'echo': 'all(ReplyMatches(t, r) for t, r in zip(log_taken, log_replies))',
+                          'chunking': 'Normalized(log_replies) == reference',
+                          'drained': "self.data is None or b'\\n' not in self.data"}),
 ]
-LOOPS = {}
+LOOPS = {
+    'RequestHandler.handle_help#0': dict(header='enumerate(HelpMessage.splitlines())', ghost=['log_async'], modifies=['running'],
+        invariant={'inv': 'inv(self)', 'no_reply': 'log_replies == old(log_replies)'}),
+    'RequestHandler.handle#0': dict(header='self.running', ghost=['log_taken', 'log_replies', 'log_async'], modifies=['data', 'running'],
+        invariant={'inv': 'inv(self)', 'paired': 'len(log_replies) == len(log_taken)'}),
+    'RequestHandler.handle#1': dict(header='self.running', ghost=['log_taken', 'log_replies', 'log_async'], modifies=['data', 'running'],
+        invariant={'inv': 'inv(self)', 'paired': 'len(log_replies) == len(log_taken)'}),
+}
+
+
+REPLY_OF = {'describe': 'describing', 'activate': 'active', 'deactivate': 'inactive', 'do': 'done', 'change': 'changed',
+            'read': 'reply', 'ping': 'pong', 'help': 'helping', 'logging': 'logging', '*IDN?': 'ISSE&SINE2020,SECoP,V2019-09-16,v1.0',
+            '_ident': 'ISSE&SINE2020,SECoP,V2019-09-16,v1.0'}
+
+
+def ReplyMatches(taken, reply):
+    """(bounded only) the reply belongs to the request: its reply action, or error_<action> with a SECoP error class;
+    the specifier is echoed"""
+    import frappy.errors
+    action, spec = taken[0], taken[1]
+    if taken[0] == '<undecodable>':
+        return reply[0].startswith('error_') and reply[2][0] in frappy.errors.SECoPError.name2class
+    if reply[0] == 'error_' + action:
+        return reply[1] == spec and isinstance(reply[2], list) and len(reply[2]) == 3 \
+            and reply[2][0] in frappy.errors.SECoPError.name2class and isinstance(reply[2][1], str)
+    if action in ('*IDN?', '_ident'):
+        return reply[0] == REPLY_OF[action]
+    if action == 'describe' and reply[0] == 'describing':
+        return reply[1] == '.'          # SECoP: the description reply always names the node as '.'
+    return reply[0] == REPLY_OF.get(action) and reply[1] == spec
+
+
+def WireWellFormed(wire):
+    """(bounded only) what went to the socket is a sequence of whole lines: UTF-8, one LF at the end, strict JSON data part"""
+    import json
+
+    def bad(c):
+        raise ValueError(c)
+    for chunk in wire:
+        if not chunk.endswith(b'\n') or b'\n' in chunk[:-1]:
+            return False
+        try:
+            parts = chunk[:-1].decode('utf-8').split(' ', 2)
+            if len(parts) == 3:
+                json.loads(parts[2], parse_constant=bad)
+        except ValueError:
+            return False
+    return True
+
+
+def Normalized(replies):
+    import json
+    out = []
+    for r in replies:
+        r = json.loads(json.dumps(r, default=repr))
+        if isinstance(r[2], list) and len(r[2]) == 2 and isinstance(r[2][1], dict):
+            r[2][1].pop('t', None)
+        out.append(r)
+    return out
+
+
+def IsAsync(data):
+    """lines sent by the request loop itself that are not replies: the help text lines.  (Events are sent by the
+    dispatcher from inside handle_request; they are logged in log_async by that contract's frame.)"""
+    return data[0] == '_'
 
 
 def Consumed(before, after):
